@@ -1710,6 +1710,11 @@ pub mod enc {
         /// position of the junk PROP chunks: before (false) or after (true) the real ones
         pub junk_last: bool,
         pub switches_impl: bool,
+        /// classes without instances ("Zero or more INST chunk", Instance Count 0, no referents):
+        /// (class name, PROP chunks of that class as (name, type id) - they hold zero values -,
+        /// INST chunk first / last, PROP chunks first / last)
+        #[serde(default)]
+        pub empty_classes: Vec<(String, Vec<(String, u8)>, bool, bool)>,
     }
 
     pub fn default_unknown_comp() -> Comp {
@@ -1782,6 +1787,7 @@ pub mod enc {
             junk_props: vec![],
             junk_last: false,
             switches_impl: true,
+            empty_classes: vec![],
         }
     }
 
@@ -1833,6 +1839,27 @@ pub mod enc {
             }
             v
         };
+        let empty_id = |k: usize| -> u32 {
+            // an id no real class uses
+            let mut id = 0x0100_0000u32 + k as u32;
+            while e.class_ids.contains(&id) {
+                id = id.wrapping_add(0x0001_0000);
+            }
+            id
+        };
+        let empty_inst = |k: usize, name: &str| -> Vec<u8> {
+            let mut d = Vec::new();
+            d.extend_from_slice(&empty_id(k).to_le_bytes());
+            put_str(&mut d, name.as_bytes());
+            d.push(0);
+            d.extend_from_slice(&0u32.to_le_bytes());
+            d
+        };
+        for (k, (name, _, first, _)) in e.empty_classes.iter().enumerate() {
+            if *first {
+                chunks.push((*b"INST", empty_inst(k, name)));
+            }
+        }
         for &ci in &e.inst_order {
             let col = column(ci);
             let service = e.service_format.contains(&classes[ci]);
@@ -1846,6 +1873,11 @@ pub mod enc {
                 d.extend(std::iter::repeat(1u8).take(col.len()));
             }
             chunks.push((*b"INST", d));
+        }
+        for (k, (name, _, first, _)) in e.empty_classes.iter().enumerate() {
+            if !*first {
+                chunks.push((*b"INST", empty_inst(k, name)));
+            }
         }
         // PROP chunks
         let mut props: Vec<Vec<u8>> = Vec::new();
@@ -1905,7 +1937,33 @@ pub mod enc {
             junk.extend(ordered);
             ordered = junk;
         }
+        let empty_props = |want_first: bool| -> Vec<Vec<u8>> {
+            let mut v = Vec::new();
+            for (k, (_, ps, _, first)) in e.empty_classes.iter().enumerate() {
+                if *first != want_first {
+                    continue;
+                }
+                for (pn, tid) in ps {
+                    let mut d = Vec::new();
+                    d.extend_from_slice(&empty_id(k).to_le_bytes());
+                    put_str(&mut d, pn.as_bytes());
+                    d.push(*tid);
+                    if *tid == 0x22 {
+                        // a Content column of zero values still has its three counts
+                        d.extend_from_slice(&[0u8; 12]);
+                    }
+                    v.push(d);
+                }
+            }
+            v
+        };
+        for d in empty_props(true) {
+            chunks.push((*b"PROP", d));
+        }
         for d in ordered {
+            chunks.push((*b"PROP", d));
+        }
+        for d in empty_props(false) {
             chunks.push((*b"PROP", d));
         }
         // PRNT
@@ -1921,7 +1979,7 @@ pub mod enc {
         out.extend_from_slice(b"<roblox!");
         out.extend_from_slice(&[0x89, 0xff, 0x0d, 0x0a, 0x1a, 0x0a]);
         out.extend_from_slice(&0u16.to_le_bytes());
-        out.extend_from_slice(&(classes.len() as u32).to_le_bytes());
+        out.extend_from_slice(&((classes.len() + e.empty_classes.len()) as u32).to_le_bytes());
         out.extend_from_slice(&(plan.nodes.len() as u32).to_le_bytes());
         out.extend_from_slice(&[0u8; 8]);
         for (k, (name, data)) in chunks.iter().enumerate() {
